@@ -665,8 +665,19 @@ func checkGetByName(c *vk.C, us []*torrentUnderTest, rep any) {
 
 func startAll(c *vk.C, geos []*fixture.Geo) ([]*torrentUnderTest, bool) {
 	var us []*torrentUnderTest
-	for _, g := range geos {
+	for gi, g := range geos {
 		t, err := g.NewTorrent("")
+		if err == nil && gi%3 == 1 {
+			// the same torrent as it looks after arriving by magnet link: created by hash with another display
+			// name (dn=), then its info dictionary is delivered. Its names are the dictionary's from then on.
+			var t2 *tor.Torrent
+			t2, err = tor.New("", g.InfoHash(), "Display Name "+g.Name+".jpg", g.Info(), 0, nil, nil)
+			if err == nil {
+				err = t2.MetadataComplete()
+				t = t2
+			}
+			c.Count("torrents_added_by_hash_with_display_name", 1)
+		}
 		if err != nil {
 			c.Inconclusive("generator produced a torrent storrent rejects: " + err.Error())
 			return us, false
